@@ -240,3 +240,32 @@ Definition job_guard15 (e : env) (fuel : nat) (jobs : list job) (jb : job) : boo
 
 Definition pair_guard15 (e : env) (fuel : nat) (jobs : list job) : bool :=
   forallb (job_guard15 e fuel jobs) jobs.
+
+(* ------------------------------------------------ names and storage *)
+(* the storage a written reference touches: a plain field its own path, a setter
+   the path of its backing field as `shoot new -getset` generated it *)
+Definition write_path (accs : list accessor) (r : fref) : option path :=
+  if r_acc r then acc_path accs (r_name r) else Some (r_path r).
+
+(* everything that can be written on one side, by name: plain exported fields,
+   setters, constructor parameters (named like the setter of their field) *)
+Definition writables (fl : list field) (accs : list accessor) (ctor : list cparam) : list (string * path) :=
+  map (fun f => (f_name f, f_path f)) fl
+  ++ map (fun a => (ac_name a, ac_path a)) (filter ac_set accs)
+  ++ map (fun c => (f_name (ctor_field c), cp_path c)) ctor.
+
+(* the storage determines the name: no two setters (or a setter and a plain field,
+   or a parameter and a differently named setter) write the same path *)
+Definition path_det (l : list (string * path)) : bool :=
+  forallb (fun x => forallb (fun y => negb (path_eqb (snd x) (snd y)) || String.eqb (fst x) (fst y)) l) l.
+
+(* what the tables `shoot new -getset` produces always satisfy; the theorems on
+   write PATHS need it, since accessor and parameter tables are otherwise free *)
+Definition tables_wf (jb : job) : bool :=
+  match parse_fields (j_env jb) (j_fuel jb) PSrc (j_src jb) true,
+        parse_fields (j_env jb) (j_fuel jb) PDst (j_dst jb) false with
+  | Some ps, Some pd =>
+      path_det (writables (exported_of (p_fields pd)) (j_dst_acc jb) (j_dst_ctor jb))
+      && path_det (writables (exported_of (p_fields ps)) (j_src_acc jb) (j_src_ctor jb))
+  | _, _ => true
+  end.
